@@ -66,6 +66,8 @@ def RoleMgr.domainHasRole (rm : RoleMgr α) (name d : α) : Bool :=
 
 /-- default_role_manager.rs:220-250 `delete_link`; `none` = `Err(RbacError::NotFound)` -/
 def RoleMgr.deleteLink (rm : RoleMgr α) (a b d : α) : Option (RoleMgr α) :=
+  -- a self-link is never stored: deleting one is a no-op (mirrors `add_link`)
+  if a = b then some rm else
   if !rm.domainHasRole a d || !rm.domainHasRole b d then none else
   let g := rm.graph d
   some { rm with doms := setDom rm.doms d { g with edges := g.edges.erase (a, b) } }
